@@ -365,14 +365,20 @@ impl Handler for PreferPrimordialsHandler {
       orig: ast_view::Node,
       node: ast_view::Node,
     ) -> bool {
+      // the object or the property of a member expression (`member_expr`
+      // looks at those), not anything that merely occurs inside one
       if node.is::<ast_view::MemberExpr>() {
-        return true;
+        return orig.parent().is_some_and(|p| p.range() == node.range());
       }
+      // a name that is being declared, not a default value or a computed key
+      // inside the declaration's pattern
       if let Some(decl) = node.to::<ast_view::VarDeclarator>() {
-        return decl.name.range().contains(&orig.range());
+        return decl.name.range().contains(&orig.range())
+          && orig.parent().is_some_and(|p| p.is::<ast_view::BindingIdent>());
       }
       if let Some(kv) = node.to::<ast_view::KeyValueProp>() {
-        return kv.key.range().contains(&orig.range());
+        return !matches!(kv.key, ast_view::PropName::Computed(_))
+          && kv.key.range().contains(&orig.range());
       }
       if let Some(type_ref) = node.to::<ast_view::TsTypeRef>() {
         return type_ref.type_name.range().contains(&orig.range());
